@@ -54,7 +54,7 @@ m = {
            "baseline_off_cmd": "cd /repo && cargo test --workspace --no-fail-fast --offline",
            "source_commits": ["80df90e"], "add_only": True},
  "engines": [{"name": "vp", "path": "/verif/harness", "serves_properties": sorted(CHECKS), "kind_free_text": "Rust harness (proptest + bounded-exhaustive enumerators + reference models + controlled scheduler) driven by /verif/check; built twice (debug assertions/overflow checks on, and off)"},
-             {"name": "vp-fuzz", "path": "/verif/fuzz", "serves_properties": ["C01", "C02", "C03", "C08", "C09", "C11", "C12", "C13", "C16", "C17", "C20"], "kind_free_text": "cargo-fuzz (libFuzzer) targets calling the harness oracles; seeds replayed in the quick tier, campaigns in the thorough tier"}],
+             {"name": "vp-fuzz", "path": "/verif/fuzz", "serves_properties": ["C01", "C02", "C03", "C04", "C05", "C06", "C08", "C09", "C11", "C12", "C13", "C15", "C16", "C17", "C19", "C20"], "kind_free_text": "cargo-fuzz (libFuzzer) targets calling the harness oracles; seeds replayed in the quick tier, campaigns in the thorough tier"}],
  "checks": [], "not_applicable": [],
  "notes": "Exit codes of every command: 0 held, 1 VIOLATION line printed, 2 inconclusive (build failure, watchdog, generator health). VERIF_SEED and VERIF_TIER are honoured. Known findings: /verif/KNOWN_FINDINGS.txt.",
 }
